@@ -1,1 +1,325 @@
-//! (harnesses for C01 not written yet)
+//! C01: decryption inverts encryption for every mode, cipher, key, IV and message, through every
+//! public way of driving the mode; unpadded operations preserve the length.
+use crate::prelude::*;
+use cipher::block_padding::Pkcs7;
+use cts::{Decrypt, Encrypt};
+
+/// Block modes: encrypt with one multi-block call, decrypt block by block (and the other way
+/// round in the second half): mixed API paths, parallel bodies on one side, serial on the other.
+macro_rules! rt_blocks {
+    ($name:ident, $unw:expr, $krate:ident, $bs:ty, $b:expr, $ivbs:ty, $ivlen:expr, $par:ty, $n:expr, $mbs:ty, $mb:expr) => {
+        #[kani::proof]
+        #[kani::unwind($unw)]
+        pub fn $name() {
+            const MB: usize = $mb;
+            const L: usize = MB * $n;
+            let key: [u8; 2] = kani::any();
+            let iv: [u8; $ivlen] = kani::any();
+            let msg: [u8; L] = kani::any();
+            // path A: encrypt_blocks (multi), decrypt_block (single)
+            let mut a = msg;
+            $krate::Encryptor::<Uf<$bs, $par>>::new(&key.into(), blk::<$ivbs>(&iv)).encrypt_blocks(blocks_mut::<$mbs>(&mut a));
+            let ct = a;
+            let mut d = $krate::Decryptor::<Uf<$bs, $par>>::new(&key.into(), blk::<$ivbs>(&iv));
+            for blk in blocks_mut::<$mbs>(&mut a).iter_mut() {
+                d.decrypt_block(blk);
+            }
+            // path B: encrypt_block (single) into a second buffer, decrypt_blocks_b2b (multi)
+            let mut b = msg;
+            let mut e = $krate::Encryptor::<Uf<$bs, $par>>::new(&key.into(), blk::<$ivbs>(&iv));
+            for blk in blocks_mut::<$mbs>(&mut b).iter_mut() {
+                e.encrypt_block(blk);
+            }
+            let mut out: [u8; L] = kani::any();
+            assert!($krate::Decryptor::<Uf<$bs, $par>>::new(&key.into(), blk::<$ivbs>(&iv))
+                .decrypt_blocks_b2b(blocks::<$mbs>(&b), blocks_mut::<$mbs>(&mut out)).is_ok());
+            let mut i = 0;
+            while i < L {
+                assert!(a[i] == msg[i], "decrypt (single blocks) does not invert encrypt (multi-block)");
+                assert!(out[i] == msg[i], "decrypt (multi-block b2b) does not invert encrypt (single blocks)");
+                assert!(b[i] == ct[i], "single-block and multi-block encryption disagree");
+                i += 1;
+            }
+            kani::cover!(true);
+        }
+    };
+}
+
+/// Padded (Pkcs7) round trip, concrete message length L: ciphertext length b*(L/b + 1).
+macro_rules! rt_padded {
+    ($name:ident, $unw:expr, $krate:ident, $cty:ident, $bs:ty, $b:expr, $ivbs:ty, $ivlen:expr, $par:ty, $l:expr, $mbs:ty, $mb:expr) => {
+        #[kani::proof]
+        #[kani::unwind($unw)]
+        pub fn $name() {
+            const L: usize = $l;
+            const P: usize = $mb * (L / $mb + 1);
+            let key: [u8; 2] = kani::any();
+            let iv: [u8; $ivlen] = kani::any();
+            let msg: [u8; L] = kani::any();
+            let c = $cty::<$bs, $par>::with_key(key);
+            let mut ct: [u8; P + 1] = kani::any();
+            let guard = ct[P];
+            let n = $krate::Encryptor::inner_iv_init(c.clone(), blk::<$ivbs>(&iv)).encrypt_padded_b2b::<Pkcs7>(&msg, &mut ct[..P]).unwrap().len();
+            assert!(n == P, "padded ciphertext length is not b*(L/b + 1)");
+            assert!(ct[P] == guard);
+            // too small an output buffer is refused
+            let mut small = [0u8; P];
+            assert!($krate::Encryptor::inner_iv_init(c.clone(), blk::<$ivbs>(&iv)).encrypt_padded_b2b::<Pkcs7>(&msg, &mut small[..P - 1]).is_err());
+            let r = $krate::Decryptor::inner_iv_init(c.clone(), blk::<$ivbs>(&iv)).decrypt_padded::<Pkcs7>(&mut ct[..P]);
+            let pt = r.unwrap();
+            assert!(pt.len() == L, "unpadded length");
+            let mut i = 0;
+            while i < L {
+                assert!(pt[i] == msg[i], "padded decryption does not invert padded encryption");
+                i += 1;
+            }
+            kani::cover!(true);
+        }
+    };
+}
+
+/// One-shot CFB / CFB-8, symbolic length.
+macro_rules! rt_oneshot {
+    ($name:ident, $unw:expr, $krate:ident, $bs:ty, $b:expr, $par:ty, $m:expr) => {
+        #[kani::proof]
+        #[kani::unwind($unw)]
+        pub fn $name() {
+            const B: usize = $b;
+            const M: usize = $m;
+            let key: [u8; 2] = kani::any();
+            let iv: [u8; B] = kani::any();
+            let msg: [u8; M] = kani::any();
+            let len: usize = kani::any();
+            kani::assume(len <= M);
+            let mut buf = msg;
+            let mut out: [u8; M] = kani::any();
+            let dirty = out;
+            split_on!(len, 0, M, l => {
+                $krate::Encryptor::<UfE<$bs, $par>>::new(&key.into(), blk::<$bs>(&iv)).encrypt(&mut buf[..l]);
+                assert!($krate::Decryptor::<UfE<$bs, $par>>::new(&key.into(), blk::<$bs>(&iv)).decrypt_b2b(&buf[..l], &mut out[..l]).is_ok());
+            });
+            let mut i = 0;
+            while i < M {
+                if i < len {
+                    assert!(out[i] == msg[i], "one-shot decrypt does not invert one-shot encrypt");
+                } else {
+                    assert!(buf[i] == msg[i] && out[i] == dirty[i], "bytes beyond the message modified");
+                }
+                i += 1;
+            }
+            kani::cover!(len == M);
+            kani::cover!(len == 0);
+        }
+    };
+}
+
+/// Buffered CFB: encrypt in pieces (a, rest), decrypt in different pieces (c, rest).
+macro_rules! rt_buf {
+    ($name:ident, $unw:expr, $bs:ty, $b:expr, $l:expr, $a:expr, $c:expr) => {
+        #[kani::proof]
+        #[kani::unwind($unw)]
+        pub fn $name() {
+            const B: usize = $b;
+            const L: usize = $l;
+            let key: [u8; 2] = kani::any();
+            let iv: [u8; B] = kani::any();
+            let msg: [u8; L] = kani::any();
+            let mut buf = msg;
+            let mut e = cfb_mode::BufEncryptor::<UfE<$bs, U1>>::new(&key.into(), blk::<$bs>(&iv));
+            {
+                let (p1, p2) = buf.split_at_mut($a);
+                e.encrypt(p1);
+                e.encrypt(p2);
+            }
+            let mut d = cfb_mode::BufDecryptor::<UfE<$bs, U1>>::new(&key.into(), blk::<$bs>(&iv));
+            {
+                let (p1, p2) = buf.split_at_mut($c);
+                d.decrypt(p1);
+                d.decrypt(p2);
+            }
+            let mut i = 0;
+            while i < L {
+                assert!(buf[i] == msg[i], "buffered CFB decrypt does not invert buffered encrypt");
+                i += 1;
+            }
+            kani::cover!(true);
+        }
+    };
+}
+
+/// Keystream ciphers: applying the keystream twice from the same position restores the data.
+/// CTR / BelT at a symbolic block position (core positioned, wrapped), OFB from a fresh object.
+macro_rules! rt_stream_ctr {
+    ($name:ident, $unw:expr, $flavor:ident, $ct:ty, $bs:ty, $b:expr, $par:ty, $l:expr) => {
+        #[kani::proof]
+        #[kani::unwind($unw)]
+        pub fn $name() {
+            const B: usize = $b;
+            const L: usize = $l;
+            let key: [u8; 2] = kani::any();
+            let iv: [u8; B] = kani::any();
+            let pos: $ct = <$ct>::MAX / 3; // concrete: see c08 (a symbolic position makes every wrapper call branch)
+            let msg: [u8; L + 1] = kani::any();
+            let mut buf = msg;
+            let mk = || {
+                let mut core = ctr::CtrCore::<_, ctr::flavors::$flavor>::inner_iv_init(UfE::<$bs, $par>::with_key(key), blk::<$bs>(&iv));
+                core.set_block_pos(pos);
+                StreamCipherCoreWrapper::from_core(core)
+            };
+            mk().apply_keystream(&mut buf[..L]);
+            let mut s = mk();
+            // decrypt in two calls, b2b then in place
+            let mut out = [0u8; L + 1];
+            out[L] = msg[L];
+            s.apply_keystream_b2b(&buf[..3], &mut out[..3]).unwrap();
+            s.apply_keystream(&mut buf[3..L]);
+            out[3..L].copy_from_slice(&buf[3..L]);
+            let mut i = 0;
+            while i <= L {
+                assert!(out[i] == msg[i], "applying the keystream twice does not restore the data");
+                i += 1;
+            }
+            kani::cover!(true);
+        }
+    };
+}
+macro_rules! rt_stream_alias {
+    ($name:ident, $unw:expr, $ty:ty, $bs:ty, $b:expr, $l:expr) => {
+        #[kani::proof]
+        #[kani::unwind($unw)]
+        pub fn $name() {
+            const B: usize = $b;
+            const L: usize = $l;
+            let key: [u8; 2] = kani::any();
+            let iv: [u8; B] = kani::any();
+            let msg: [u8; L + 1] = kani::any();
+            let mut buf = msg;
+            <$ty>::new(&key.into(), blk::<$bs>(&iv)).apply_keystream(&mut buf[..L]);
+            let mut s = <$ty>::new(&key.into(), blk::<$bs>(&iv));
+            s.apply_keystream(&mut buf[..1]);
+            s.apply_keystream(&mut buf[1..L]);
+            let mut i = 0;
+            while i <= L {
+                assert!(buf[i] == msg[i], "applying the keystream twice does not restore the data");
+                i += 1;
+            }
+            kani::cover!(true);
+        }
+    };
+}
+
+/// CTS: symbolic length in [b, M]: decrypt(encrypt(m)) == m, nothing beyond the message touched.
+macro_rules! rt_cts {
+    ($name:ident, $unw:expr, $ty:ident, $bs:ty, $b:expr, $par:ty, $m:expr) => {
+        #[kani::proof]
+        #[kani::unwind($unw)]
+        pub fn $name() {
+            const B: usize = $b;
+            const M: usize = $m;
+            let key: [u8; 2] = kani::any();
+            let iv: [u8; B] = kani::any();
+            let msg: [u8; M] = kani::any();
+            let len: usize = kani::any();
+            kani::assume(len >= B && len <= M);
+            let mut buf = msg;
+            let mut out: [u8; M] = kani::any();
+            let dirty = out;
+            split_on!(len, B, M, l => {
+                assert!(crate::common::mk::$ty(Uf::<$bs, $par>::with_key(key), &iv).encrypt(&mut buf[..l]).is_ok());
+                assert!(crate::common::mk::$ty(Uf::<$bs, $par>::with_key(key), &iv).decrypt_b2b(&buf[..l], &mut out[..l]).is_ok());
+            });
+            let mut i = 0;
+            while i < M {
+                if i < len {
+                    assert!(out[i] == msg[i], "CTS decrypt does not invert CTS encrypt");
+                } else {
+                    assert!(buf[i] == msg[i] && out[i] == dirty[i], "bytes beyond the message modified");
+                }
+                i += 1;
+            }
+            kani::cover!(len == B);
+            kani::cover!(len == M);
+            kani::cover!(len == 2 * B);
+        }
+    };
+}
+
+/// adaptor so that the generic alias macro can build BelT objects with the preset s0 (see common.rs)
+pub struct BeltPreset;
+impl BeltPreset {
+    pub fn new(key: &Array<u8, U2>, iv: &Array<u8, U16>) -> belt_ctr::BeltCtr<UfE<U16, U2>> {
+        crate::common::belt_alias::<U2>([key[0], key[1]], iv)
+    }
+}
+
+// ---- quick -----------------------------------------------------------------------------------
+rt_blocks!(rt_cbc_b2_w2_n3, 48, cbc, U2, 2, U2, 2, U2, 3, U2, 2);
+rt_blocks!(rt_pcbc_b2_w2_n3, 48, pcbc, U2, 2, U2, 2, U2, 3, U2, 2);
+rt_blocks!(rt_ige_b2_w2_n3, 48, ige, U2, 2, U4, 4, U2, 3, U2, 2);
+rt_blocks!(rt_cfb_b2_w2_n3, 48, cfb_mode, U2, 2, U2, 2, U2, 3, U2, 2);
+rt_blocks!(rt_cfb8_b2_w1_n4, 48, cfb8, U2, 2, U2, 2, U1, 4, U1, 1);
+rt_blocks!(rt_cbc_b4_w3_n4, 64, cbc, U4, 4, U4, 4, U3, 4, U4, 4);
+rt_padded!(rt_pad_cbc_b4_w2_l0, 64, cbc, Uf, U4, 4, U4, 4, U2, 0, U4, 4);
+rt_padded!(rt_pad_cbc_b4_w2_l3, 64, cbc, Uf, U4, 4, U4, 4, U2, 3, U4, 4);
+rt_padded!(rt_pad_cbc_b4_w2_l4, 64, cbc, Uf, U4, 4, U4, 4, U2, 4, U4, 4);
+rt_padded!(rt_pad_cbc_b4_w2_l9, 64, cbc, Uf, U4, 4, U4, 4, U2, 9, U4, 4);
+rt_padded!(rt_pad_pcbc_b2_w2_l3, 64, pcbc, Uf, U2, 2, U2, 2, U2, 3, U2, 2);
+rt_padded!(rt_pad_ige_b2_w2_l5, 64, ige, Uf, U2, 2, U4, 4, U2, 5, U2, 2);
+rt_padded!(rt_pad_cfb_b2_w2_l3, 64, cfb_mode, UfE, U2, 2, U2, 2, U2, 3, U2, 2);
+rt_oneshot!(rt_cfb_oneshot_b2_w2_l7, 48, cfb_mode, U2, 2, U2, 7);
+rt_oneshot!(rt_cfb8_oneshot_b2_l5, 48, cfb8, U2, 2, U1, 5);
+rt_buf!(rt_buf_b2_l7_a3_c4, 48, U2, 2, 7, 3, 4);
+rt_buf!(rt_buf_b4_l9_a0_c5, 48, U4, 4, 9, 0, 5);
+rt_stream_ctr!(rt_ctr32be_b4_w2_l9, 48, Ctr32BE, u32, U4, 4, U2, 9);
+rt_stream_ctr!(rt_ctr32le_b4_w1_l9, 48, Ctr32LE, u32, U4, 4, U1, 9);
+rt_stream_ctr!(rt_ctr64be_b8_w1_l17, 64, Ctr64BE, u64, U8, 8, U1, 17);
+rt_stream_ctr!(rt_ctr64le_b8_w2_l17, 64, Ctr64LE, u64, U8, 8, U2, 17);
+rt_stream_ctr!(rt_ctr128be_b16_w1_l18, 80, Ctr128BE, u128, U16, 16, U1, 18);
+rt_stream_ctr!(rt_ctr128le_b16_w2_l18, 80, Ctr128LE, u128, U16, 16, U2, 18);
+rt_stream_alias!(rt_ofb_b2_l7, 48, ofb::Ofb<UfE<U2, U2>>, U2, 2, 7);
+rt_stream_alias!(rt_belt_l18, 80, BeltPreset, U16, 16, 18);
+rt_cts!(rt_cts_cbc_cs1_b2_w2_l7, 48, CbcCs1, U2, 2, U2, 7);
+rt_cts!(rt_cts_cbc_cs2_b2_w2_l7, 48, CbcCs2, U2, 2, U2, 7);
+rt_cts!(rt_cts_cbc_cs3_b2_w2_l7, 48, CbcCs3, U2, 2, U2, 7);
+rt_cts!(rt_cts_ecb_cs1_b2_w2_l7, 48, EcbCs1, U2, 2, U2, 7);
+rt_cts!(rt_cts_ecb_cs2_b2_w2_l7, 48, EcbCs2, U2, 2, U2, 7);
+rt_cts!(rt_cts_ecb_cs3_b2_w2_l7, 48, EcbCs3, U2, 2, U2, 7);
+
+// ---- thorough --------------------------------------------------------------------------------
+rt_blocks!(t_rt_cbc_b1_w4_n5, 48, cbc, U1, 1, U1, 1, U4, 5, U1, 1);
+rt_blocks!(t_rt_cbc_b8_w2_n3, 64, cbc, U8, 8, U8, 8, U2, 3, U8, 8);
+rt_blocks!(t_rt_pcbc_b3_w3_n4, 48, pcbc, U3, 3, U3, 3, U3, 4, U3, 3);
+rt_blocks!(t_rt_pcbc_b8_w2_n3, 64, pcbc, U8, 8, U8, 8, U2, 3, U8, 8);
+rt_blocks!(t_rt_ige_b3_w3_n4, 48, ige, U3, 3, U6, 6, U3, 4, U3, 3);
+rt_blocks!(t_rt_ige_b8_w2_n3, 64, ige, U8, 8, U16, 16, U2, 3, U8, 8);
+rt_blocks!(t_rt_cfb_b1_w4_n5, 48, cfb_mode, U1, 1, U1, 1, U4, 5, U1, 1);
+rt_blocks!(t_rt_cfb_b4_w3_n4, 64, cfb_mode, U4, 4, U4, 4, U3, 4, U4, 4);
+rt_blocks!(t_rt_cfb_b8_w2_n3, 64, cfb_mode, U8, 8, U8, 8, U2, 3, U8, 8);
+rt_blocks!(t_rt_cfb8_b1_w1_n4, 48, cfb8, U1, 1, U1, 1, U1, 4, U1, 1);
+rt_blocks!(t_rt_cfb8_b4_w2_n6, 48, cfb8, U4, 4, U4, 4, U2, 6, U1, 1);
+rt_blocks!(t_rt_cfb8_b8_w1_n9, 64, cfb8, U8, 8, U8, 8, U1, 9, U1, 1);
+rt_padded!(t_rt_pad_cbc_b1_w2_l3, 64, cbc, Uf, U1, 1, U1, 1, U2, 3, U1, 1);
+rt_padded!(t_rt_pad_cbc_b8_w2_l17, 80, cbc, Uf, U8, 8, U8, 8, U2, 17, U8, 8);
+rt_padded!(t_rt_pad_pcbc_b4_w3_l12, 64, pcbc, Uf, U4, 4, U4, 4, U3, 12, U4, 4);
+rt_padded!(t_rt_pad_ige_b4_w3_l11, 64, ige, Uf, U4, 4, U8, 8, U3, 11, U4, 4);
+rt_padded!(t_rt_pad_cfb8_b2_l3, 64, cfb8, UfE, U2, 2, U2, 2, U1, 3, U1, 1);
+rt_oneshot!(t_rt_cfb_oneshot_b3_w3_l10, 48, cfb_mode, U3, 3, U3, 10);
+rt_oneshot!(t_rt_cfb_oneshot_b4_w2_l13, 48, cfb_mode, U4, 4, U2, 13);
+rt_oneshot!(t_rt_cfb8_oneshot_b3_l7, 48, cfb8, U3, 3, U1, 7);
+rt_buf!(t_rt_buf_b3_l10_a4_c7, 48, U3, 3, 10, 4, 7);
+rt_buf!(t_rt_buf_b1_l4_a1_c3, 48, U1, 1, 4, 1, 3);
+rt_stream_ctr!(t_rt_ctr32be_b16_w2_l33, 100, Ctr32BE, u32, U16, 16, U2, 33);
+rt_stream_ctr!(t_rt_ctr64le_b16_w1_l33, 100, Ctr64LE, u64, U16, 16, U1, 33);
+rt_stream_alias!(t_rt_ofb_b4_l13, 48, ofb::Ofb<UfE<U4, U3>>, U4, 4, 13);
+rt_stream_alias!(t_rt_ofb_b16_l33, 100, ofb::Ofb<UfE<U16, U1>>, U16, 16, 33);
+rt_cts!(t_rt_cts_cbc_cs1_b2_w2_l9, 48, CbcCs1, U2, 2, U2, 9);
+rt_cts!(t_rt_cts_cbc_cs2_b2_w2_l9, 48, CbcCs2, U2, 2, U2, 9);
+rt_cts!(t_rt_cts_cbc_cs3_b2_w2_l9, 48, CbcCs3, U2, 2, U2, 9);
+rt_cts!(t_rt_cts_ecb_cs1_b2_w2_l9, 48, EcbCs1, U2, 2, U2, 9);
+rt_cts!(t_rt_cts_ecb_cs2_b2_w2_l9, 48, EcbCs2, U2, 2, U2, 9);
+rt_cts!(t_rt_cts_ecb_cs3_b2_w2_l9, 48, EcbCs3, U2, 2, U2, 9);
+rt_cts!(t_rt_cts_cbc_cs3_b4_w3_l13, 64, CbcCs3, U4, 4, U3, 13);
+rt_cts!(t_rt_cts_ecb_cs2_b4_w3_l13, 64, EcbCs2, U4, 4, U3, 13);
+rt_cts!(t_rt_cts_cbc_cs1_b1_w2_l4, 48, CbcCs1, U1, 1, U2, 4);
+rt_cts!(t_rt_cts_ecb_cs3_b1_w2_l4, 48, EcbCs3, U1, 1, U2, 4);
+rt_cts!(t_rt_cts_cbc_cs2_b3_w2_l10, 48, CbcCs2, U3, 3, U2, 10);
